@@ -78,6 +78,27 @@ v("c18-runeself","C18","internal/strings/convert.go","			if r < utf8.RuneSelf {"
 # C19
 v("c19-nobuilder","C19","internal/io/sql/types.go","	case ecolumn.Column:","	case *ecolumn.Column:","R36")
 v("c19-rows-err","C19","internal/io/sql/reader.go","	if err := rows.Err(); err != nil {\n		return nil, colNames, qerrors.New(\"ReadSQL Rows\", err.Error())\n	}\n","","R29")
+
+# ---- benign refactors: must stay silent ----
+v("b-kernel-index-load","C02","internal/fcolumn/filters_gen.go","func lt(index index.Int, column []float64, comp float64, bIndex index.Bool) {\n	for i, x := range bIndex {\n		if !x {\n			bIndex[i] = column[index[i]] < comp\n		}\n	}\n}","func lt(index index.Int, column []float64, comp float64, bIndex index.Bool) {\n	for i := range bIndex {\n		if bIndex[i] {\n			continue\n		}\n		bIndex[i] = column[index[i]] < comp\n	}\n}","","benign","load the accumulator by index, guard as continue")
+v("b-filter-prealloc","C02","internal/index/index.go","	result := make(Int, 0, count)\n	for i, b := range bIx {\n		if b {\n			result = append(result, ix[i])\n		}\n	}\n\n	return result","	result := make(Int, count)\n	n := 0\n	for i, b := range bIx {\n		if b {\n			result[n] = ix[i]\n			n++\n		}\n	}\n\n	return result","","benign","preallocate and fill by counter")
+v("b-sort-localcopy","C03","qframe.go","	newDf := qf.withIndex(qf.index.Copy())\n	sorter := qfsort.New(newDf.index, comparables)\n	sorter.Sort()\n	return newDf","	newIx := qf.index.Copy()\n	sorter := qfsort.New(newIx, comparables)\n	sorter.Sort()\n	return qf.withIndex(newIx)","","benign","copy the index into a local first")
+v("b-sort-localcopy-c01","C01","qframe.go","	newDf := qf.withIndex(qf.index.Copy())\n	sorter := qfsort.New(newDf.index, comparables)\n	sorter.Sort()\n	return newDf","	newIx := qf.index.Copy()\n	sorter := qfsort.New(newIx, comparables)\n	sorter.Sort()\n	return qf.withIndex(newIx)","","benign","copy the index into a local first")
+v("b-setcolumn-append-fresh","C01","qframe.go","	newF.columns = make([]namedColumn, newColCount)\n	newF.columnsByName = make(map[string]namedColumn, newColCount)\n	copy(newF.columns, qf.columns)\n","	newF.columns = make([]namedColumn, newColCount)\n	newF.columnsByName = make(map[string]namedColumn, newColCount)\n	for i := range qf.columns {\n		newF.columns[i] = qf.columns[i]\n	}\n","","benign","element-wise copy instead of copy()")
+v("b-setcolumn-loopcopy-c06","C06","qframe.go","	newF.columns = make([]namedColumn, newColCount)\n	newF.columnsByName = make(map[string]namedColumn, newColCount)\n	copy(newF.columns, qf.columns)\n","	newF.columns = make([]namedColumn, newColCount)\n	newF.columnsByName = make(map[string]namedColumn, newColCount)\n	for i := range qf.columns {\n		newF.columns[i] = qf.columns[i]\n	}\n","","benign","element-wise copy instead of copy()")
+v("b-eval-early-return","C07","qframe.go","	result = result.Copy(dstCol, colName)\n	if !qf.Contains(colName) {\n		result = result.Drop(colName)\n	}\n\n	return result","	result = result.Copy(dstCol, colName)\n	if qf.Contains(colName) {\n		return result\n	}\n\n	return result.Drop(colName)","","benign","invert the guard")
+v("b-readcsv-single-err","C15","internal/io/csv.go","	if r.Err() != nil {\n		return nil, nil, qerrors.Propagate(\"ReadCSV read body\", r.Err())\n	}\n\n	if conf.MissingColumnNameAlias","	if err := r.Err(); err != nil {\n		return nil, nil, qerrors.Propagate(\"ReadCSV read body\", err)\n	}\n\n	if conf.MissingColumnNameAlias","","benign","call Err() once")
+v("b-tocsv-explicit","C15","qframe.go","	w.Flush()\n	return w.Error()","	w.Flush()\n	if err := w.Error(); err != nil {\n		return err\n	}\n\n	return nil","","benign","explicit error test after Flush")
+v("b-hash-plus-zero","C04","internal/fcolumn/column.go","	if f == 0 {\n		// 0.0 and -0.0 compare equal, make sure they hash equal.\n		f = 0\n	}\n","	// 0.0 and -0.0 compare equal, adding zero turns -0.0 into 0.0.\n	f = f + 0\n","","benign","normalise zero by adding 0")
+v("b-new-negative-sentinel","C08","qframe.go","	firstLen, currentLen := 0, 0\n	for i, name := range config.ColumnOrder {","	firstLen, currentLen := -1, 0\n	for i, name := range config.ColumnOrder {","","benign","initialise differently (still assigned on i == 0)")
+v("b-new-sentinel-minus1","C08","qframe.go","		if i == 0 {\n			firstLen = currentLen\n		}\n","		if firstLen < 0 || i == 0 {\n			firstLen = currentLen\n		}\n","","benign","negative sentinel is not a legal length")
+v("b-mask-convert-first","C04","internal/grouper/grouper.go","	bitMask := uint64(len(t.entries) - 1)\n","	bitMask := uint64(len(t.entries)) - 1\n","","benign","convert before subtracting")
+v("b-comparable-ifelse","C03","internal/ecolumn/column.go","	if nullLast {\n		result.nullLtValue, result.nullGtValue = result.nullGtValue, result.nullLtValue\n	}\n\n	if equalNull {\n		result.equalNullValue = column.Equal\n	}\n\n	return result\n}\n\nfunc (c Column) String() string {","	if nullLast {\n		tmp := result.nullLtValue\n		result.nullLtValue = result.nullGtValue\n		result.nullGtValue = tmp\n	}\n\n	result.equalNullValue = column.NotEqual\n	if equalNull {\n		result.equalNullValue = column.Equal\n	}\n\n	return result\n}\n\nfunc (c Column) String() string {","","benign","swap through a temporary, explicit default")
+v("b-slice-switch","C08","qframe.go","	if start < 0 {\n		return qf.withErr(qerrors.New(\"Slice\", \"start must be non negative\"))\n	}\n\n	if start > end {\n		return qf.withErr(qerrors.New(\"Slice\", \"start must not be greater than end\"))\n	}\n\n	if end > qf.Len() {\n		return qf.withErr(qerrors.New(\"Slice\", \"end must not be greater than qframe length\"))\n	}\n","	switch {\n	case start < 0:\n		return qf.withErr(qerrors.New(\"Slice\", \"start must be non negative\"))\n	case start > end:\n		return qf.withErr(qerrors.New(\"Slice\", \"start must not be greater than end\"))\n	case end > qf.index.Len():\n		return qf.withErr(qerrors.New(\"Slice\", \"end must not be greater than qframe length\"))\n	}\n","","benign","switch form, Len of the index")
+v("b-agg-indexed","C04","internal/icolumn/column_gen.go","	data := make([]int, 0, len(indices))\n	var buf []int\n	for _, ix := range indices {\n		subS := c.subsetWithBuf(ix, &buf)\n		data = append(data, actualFn(subS.data))\n	}","	data := make([]int, len(indices))\n	var buf []int\n	for i, ix := range indices {\n		subS := c.subsetWithBuf(ix, &buf)\n		data[i] = actualFn(subS.data)\n	}","","benign","preallocate the result and store by group number")
+v("b-view-local","C09","internal/icolumn/column_gen.go","	return v.data[v.index[i]]","	pos := v.index[i]\n	return v.data[pos]","","benign","hoist the position")
+v("b-tojson-index-loop","C14","qframe.go","	for i, ix := range qf.index {\n		jsonBuf = jsonBuf[:0]","	for i := 0; i < len(qf.index); i++ {\n		ix := qf.index[i]\n		jsonBuf = jsonBuf[:0]","","benign","classic counted loop over the index")
+
 json.dump({"variants":V},open('/verif/qfcheck/variants/catalogue.json','w'),indent=1)
 import os
 bad=0
